@@ -64,6 +64,7 @@ CFG = {
         "Swat4.C06.facts_udp_buffer_is_model",
         "Swat4.C06.facts_partial_ops_browser",
         "Swat4.C06.facts_browser_reads_only",
+        "Swat4.C06.facts_udp_empty_read_guard",
     ],
     # proved in the Lean files and used by other proofs, but NOT audited as property theorems: each is a
     # read-back of a definition, glue between two names, true by type, or a corollary of an audited theorem
@@ -87,7 +88,7 @@ CFG = {
             "must be exactly the model's (Heartbeat.dispatch from 127.0.0.1:<client port>): at most one per datagram, none for a datagram the model "
             "leaves unanswered; non-trivial = non-empty payload",
     "assumptions": [
-        "udpserver only hands datagrams with n > 0 bytes to the dispatcher (pkg/udp/udpserver/server.go); udp_empty_panics (supporting lemma, not audited: the model evaluated on the empty payload) shows the guard is needed",
+        "udpserver only hands datagrams with n > 0 bytes to the dispatcher (pkg/udp/udpserver/server.go) - no longer only an assumption: facts_udp_empty_read_guard pins the guard `n > 0 && s.handler != nil` around the single hand-over (go/ast on every run) and ties it to UdpServer.deliver's `none` arm; udp_empty_panics (supporting lemma, not audited: the model evaluated on the empty payload) shows the guard is needed",
         "healthy storage. TCP: BrowserReq06.handle (what the differential stream compares with the code) covers browsing.NewRequest only; "
         "tcp_pipeline_total covers the whole handler goroutine by composing the checked models of the other stages - query.NewFromString "
         "(C03.filter_parse_never_panics), packServers (packServersChecked_eq), crypt.Encrypt (C02.encrypt_total) - with the listing use case as "
